@@ -65,9 +65,20 @@ def check(F, rep):
         if not ok:
             continue
         ah = find_calls(f, HK + "EndpointHooksList::after_handshake")
-        rep.exact("after-handshake", "after_handshake calls in the future", len(ah), 1)
         if not ah:
+            # the hook check no longer sits in the one function every completed handshake goes
+            # through: then every caller that hands out the connection must run it itself
+            hookers = {source_fn(F, h) for h, b2, t2, k2 in call_sites(F, HK + "EndpointHooksList::after_handshake", crates=["iroh"])}
+            missing = []
+            for g_, b2, t2, k2 in call_sites(F, CONN + "conn_from_noq_conn", crates=["iroh"]):
+                names = {callee_names(t3)[0] for h in tree_with_helpers(F, F.fns_named(source_fn(F, g_))[0] if F.fns_named(source_fn(F, g_)) else g_) for b3, t3 in h.calls()}
+                if not (names & hookers) and HK + "EndpointHooksList::after_handshake" not in names:
+                    missing.append(source_fn(F, g_))
+            rep.ob("after-handshake", False, site(f, b),
+                   "conn_from_noq_conn (the only constructor of a handshake-completed Connection) no longer runs EndpointHooksList::after_handshake; the hooks are run by %s, but these paths hand out a connection without them: %s" % (sorted(hookers) or "nobody", sorted(set(missing)) or "none found - moved check not verifiable by this rule"),
+                   skey(F, f, "hooks-on-every-path"))
             continue
+        rep.exact("after-handshake", "after_handshake calls in the future", len(ah), 1)
         outs = await_output(f, ah[0][1]["dest"]["l"])
         ts = enum_tests(F, f, outs, HK + "AfterHandshakeOutcome", "Accept")
         oks = [(bb, ii, r) for bb, ii, r in returns_of(f) if ii is not None and r["k"] == "agg" and r.get("variant") == "Ok"]
